@@ -40,6 +40,8 @@ Inductive prog :=
 | Raise
 | Choice (p q : prog)
 | Try (body handler : prog) (reraise : bool)
+| TryElse (body handler els : prog)     (* try/except/else: [els] runs only when [body] completed; its exceptions
+                                          are not handled by [handler] *)
 | Finally (body fin : prog).
 
 Fixpoint seql (l : list prog) : prog :=
@@ -84,6 +86,8 @@ Inductive exec : prog -> st -> outcome -> st -> Prop :=
 | E_ChoiceR p q s o s1 : exec q s o s1 -> exec (Choice p q) s o s1
 | E_TryN b h r s s1 : exec b s Normal s1 -> exec (Try b h r) s Normal s1
 | E_TryX b h r s s1 o s2 : exec b s Exc s1 -> exec h s1 o s2 -> exec (Try b h r) s (try_outcome r o) s2
+| E_TryElseN b h e s s1 o s2 : exec b s Normal s1 -> exec e s1 o s2 -> exec (TryElse b h e) s o s2
+| E_TryElseX b h e s s1 o s2 : exec b s Exc s1 -> exec h s1 o s2 -> exec (TryElse b h e) s o s2
 | E_FinN b f s s1 o s2 : exec b s Normal s1 -> exec f s1 o s2 -> exec (Finally b f) s o s2
 | E_FinXN b f s s1 s2 : exec b s Exc s1 -> exec f s1 Normal s2 -> exec (Finally b f) s Exc s2
 | E_FinXX b f s s1 s2 : exec b s Exc s1 -> exec f s1 Exc s2 -> exec (Finally b f) s Exc s2.
@@ -110,6 +114,11 @@ Fixpoint post (p : prog) (s : st) : list st * list st :=
       let hs := map (post h) (snd a) in
       if r then (fst a, flat_map fst hs ++ flat_map snd hs)
       else (fst a ++ flat_map fst hs, flat_map snd hs)
+  | TryElse b h e =>
+      let a := post b s in
+      let en := map (post e) (fst a) in
+      let hs := map (post h) (snd a) in
+      (flat_map fst en ++ flat_map fst hs, flat_map snd en ++ flat_map snd hs)
   | Finally b f =>
       let a := post b s in
       let fn := map (post f) (fst a) in
